@@ -1288,18 +1288,23 @@ class ASTBuilder:
 
 model.System.defaultBuilder = ASTBuilder
 
-def findModuleLevelAssign(mod_ast: ast.Module) -> Iterator[Tuple[str, ast.Assign]]:
+def findModuleLevelAssign(mod_ast: ast.Module) -> Iterator[Tuple[str, Union[ast.Assign, ast.AnnAssign]]]:
     """
     Find module level Assign. 
-    Yields tuples containing the assigment name and the Assign node.
+    Yields tuples containing the assigment name and the Assign node;
+    an annotated assignment that has a value (C{__all__: List[str] = [...]}) counts as well.
     """
     for node in mod_ast.body:
         if isinstance(node, ast.Assign) and \
             len(node.targets) == 1 and \
             isinstance(node.targets[0], ast.Name):
                 yield (node.targets[0].id, node)
+        elif isinstance(node, ast.AnnAssign) and \
+            node.value is not None and \
+            isinstance(node.target, ast.Name):
+                yield (node.target.id, node)
 
-def parseAll(node: ast.Assign, mod: model.Module) -> None:
+def parseAll(node: Union[ast.Assign, ast.AnnAssign], mod: model.Module) -> None:
     """Find and attempt to parse into a list of names the 
     C{__all__} variable of a module's AST and set L{Module.all} accordingly."""
 
@@ -1333,7 +1338,7 @@ def parseAll(node: ast.Assign, mod: model.Module) -> None:
             section='all', lineno_offset=node.lineno)
     mod.all = names
 
-def parseDocformat(node: ast.Assign, mod: model.Module) -> None:
+def parseDocformat(node: Union[ast.Assign, ast.AnnAssign], mod: model.Module) -> None:
     """
     Find C{__docformat__} variable of this 
     module's AST and set L{Module.docformat} accordingly.
@@ -1375,7 +1380,7 @@ def parseDocformat(node: ast.Assign, mod: model.Module) -> None:
 
     mod.docformat = value
 
-MODULE_VARIABLES_META_PARSERS: Mapping[str, Callable[[ast.Assign, model.Module], None]] = {
+MODULE_VARIABLES_META_PARSERS: Mapping[str, Callable[[Union[ast.Assign, ast.AnnAssign], model.Module], None]] = {
     '__all__': parseAll,
     '__docformat__': parseDocformat
 }
